@@ -74,6 +74,12 @@ def run(chk: common.Check):
         J = {"A": {"text": hpx, "opts": []}, "B": {"text": hpx, "opts": ["-p", cfg_couple]}, "C": {"text": hpx, "opts": ["-d"]},
              "D": {"text": hpx, "opts": ["-d", "-p", cfg_couple]}, "E": {"text": sub, "opts": ["-p", cfg_cut]}, "F": {"text": sub, "opts": []},
              "G": {"text": hpx, "opts": ["-p", cfg_cut]}}
+        # structures that introduce the chain identifiers of a later job in another order: chain I alone; chain I written before chain E
+        al = [l for l in sub.splitlines() if structures.is_atom(l)]
+        only_i = "\n".join(l for l in al if l[21] == "I") + "\nTER\nEND\n"
+        i_first = "\n".join([l for l in al if l[21] == "I"] + ["TER"] + [l for l in al if l[21] == "E"] + ["TER", "END"]) + "\n"
+        J["K"] = {"text": only_i, "opts": []}
+        J["L"] = {"text": i_first, "opts": []}
         if chk.thorough:
             J["H"] = {"text": structures.read("4DFR.pdb"), "opts": []}
             J["I"] = {"text": structures.read("1FTJ-Chain-A.pdb"), "opts": ["--titrate_only", "A:20,A:24"]}
@@ -83,7 +89,7 @@ def run(chk: common.Check):
             if "error" in r:
                 found.append(("job-fails", f"job {k} fails: {r['error']}", {"job": k}))
         # ---- interleaved sequences in one process
-        seqs = ["ABABCDCD", "EFEGAG", "DCBA", "GAEF"] + (["HAHBIHI", "FEDCBAGABCDEF"] if chk.thorough else [])
+        seqs = ["ABABCDCD", "EFEGAG", "DCBA", "GAEF", "KFLF", "LKF"] + (["HAHBIHI", "FEDCBAGABCDEF"] if chk.thorough else [])
         for seq in seqs:
             res = run_jobs([J[k] for k in seq])
             for pos, (k, r) in enumerate(zip(seq, res)):
@@ -120,6 +126,13 @@ def run(chk: common.Check):
                     ("the same stream object used for a second run", {"mode": "stream-reused", "text": sub, "opts": [], "name": "x.pdb"}, None),
                     ("a stream the caller has already read to its end", {"mode": "stream-read-before", "text": sub, "opts": [], "name": "x.pdb"}, None),
                     ("path, other cwd", {"mode": "path", "path": pth, "opts": []}, d2), ("relative path", {"mode": "path", "path": "x.pdb", "opts": [], "cwd": d1}, None)]
+        # a working directory that happens to contain parameter-file look-alikes (a propka.cfg with other model pKa values)
+        d6 = tempfile.mkdtemp(dir="/var/tmp"); tmpdirs.append(d6)
+        decoy = (common.REPO / "propka" / "propka.cfg").read_text().replace("model_pkas ASP", "model_pkas ASP 9.90 #", 1).replace("model_pkas LYS", "model_pkas LYS 5.50 #", 1)
+        for fn in ("propka.cfg", "protein_bonds.json", "ions.list"):
+            open(os.path.join(d6, fn), "w").write(decoy if fn.endswith(".cfg") else "{}")
+        variants.append(("path, working directory containing another propka.cfg", {"mode": "path", "path": pth, "opts": []}, d6))
+        variants.append(("stream, working directory containing another propka.cfg", {"text": sub, "opts": [], "name": "x.pdb"}, d6))
         ref = None
         for what, job, cwd in variants:
             r = run_jobs([job], cwd=cwd)[0]
